@@ -97,3 +97,28 @@ Theorem C02_meek_iterations_conserve_whole_run : forall A S (ZL : zlike A S) cfg
   raw ZL (as_votes sn) + match as_nt sn with Some x => raw ZL x | None => 0 end = S * (ballot_total pr + eballot_total pr).
 Proof. exact count_meek_iterations. Qed.
 Print Assumptions C02_meek_iterations_conserve_whole_run.
+
+(* ---- ... for every ballot file the reader accepts ----
+   [parse_file] is the reader model (C15/C16), [to_count_profile] what Election.__init__ reads off the parsed profile
+   (Model/EndToEnd.v); the hypothesis "well-formed profile" of the whole-run theorems is discharged by the reader's
+   theorem (Proofs/EndToEndLink.v).  ./check runs the composed pipeline (text -> reader model -> count model) against
+   the implementation on the same files (correspondence group e2e). *)
+From Droop Require Import Model.Profile Model.EndToEnd Proofs.EndToEndLink.
+
+Theorem C02_no_votes_created_for_every_accepted_file : forall A S (ZL : zlike A S) cfg,
+  cf_method cfg = MWigm -> exact A = false -> 0 <= cf_nballots cfg -> 0 <= cf_nseats cfg ->
+  forall r text p fuel s k, greg_rule r -> parse_file text = Ok p ->
+  exec (@crashed A) fuel (count_cmd A cfg r) (init_state A cfg (to_count_profile p)) = Some (s, k) -> k <> Abort ->
+  (Gregory.total A S ZL s <= S * ballot_total (to_count_profile p)) /\
+  (Forall (snap_ok A S ZL (S * ballot_total (to_count_profile p))) (actions s)) /\
+  (forall c, In c (cands s) -> 0 <= raw ZL (cvote c)).
+Proof. exact accepted_no_votes_created. Qed.
+Print Assumptions C02_no_votes_created_for_every_accepted_file.
+
+Theorem C02_meek_iterations_conserve_for_every_accepted_file : forall A S (ZL : zlike A S) cfg, cf_method cfg = MMeek ->
+  forall text p fuel s k, parse_file text = Ok p ->
+  exec (@crashed A) fuel (count_cmd A cfg RMeek) (init_state A cfg (to_count_profile p)) = Some (s, k) -> k <> Abort ->
+  forall a sn, In a (actions s) -> a_tag a = TIterate -> a_snap a = Some sn ->
+  raw ZL (as_votes sn) + match as_nt sn with Some x => raw ZL x | None => 0 end = S * p_nBallots p.
+Proof. exact accepted_meek_iterations. Qed.
+Print Assumptions C02_meek_iterations_conserve_for_every_accepted_file.
